@@ -37,7 +37,14 @@ def body(E, cfg):
     R = OpticalMap(1, (r[-1] + 10) if r else 10, list(r))
     Q = OpticalMap(7, qlen, list(q), shift=shift)
     try:
-        res = AlignerEngine(maxD).align(R, Q, start, end, rev)
+        engine = AlignerEngine(maxD)
+        if cfg.get("prior"):
+            # history: the same engine object has already been used on ANOTHER reference map carrying the same molecule id and on
+            # another query (an engine lives as long as its Aligner); nothing of that call may leak into this one
+            d = E.real("priorLabel")
+            E.assume(d >= 0)
+            engine.align(OpticalMap(1, d + 10, [d]), OpticalMap(7, qlen, [0], shift=shift), start, end, rev)
+        res = engine.align(R, Q, start, end, rev)
     except Exception as ex:  # noqa
         E.fail("exception:" + type(ex).__name__)
         return ["exception", type(ex).__name__]
@@ -125,6 +132,8 @@ def configs(tier):
                 if not strict and (KR + KQ < 2 or (tier == "quick" and KR * KQ > 6) or KR * KQ > 12):
                     continue
                 cfgs.append({"KR": KR, "KQ": KQ, "rev": rev, "strict": strict, "shift": 3 if (KR + KQ) % 2 else 0})
+                if strict and KR * KQ <= (4 if tier == "quick" else 6):
+                    cfgs.append({"KR": KR, "KQ": KQ, "rev": rev, "strict": strict, "shift": 3 if (KR + KQ) % 2 else 0, "prior": True})
     return cfgs
 
 
@@ -143,7 +152,8 @@ def units(prop):
                    "src.correlation.optical_map:OpticalMap.getPositionsWithSiteIds"],
         bounds="reference labels 0..3 x query labels 0..3 (quick) / up to 5 x 4 with product <= 16 (thorough), both strands, "
                "strictly increasing and non-decreasing (coincident) coordinates, label-number offset 0 or 3; all coordinates, the "
-               "seed, the window end (>= seed), maxDistance >= 0 and the query length are unbounded symbolic reals",
+               "seed, the window end (>= seed), maxDistance >= 0 and the query length are unbounded symbolic reals; for <= 2 x 2 labels (thorough "
+               "product <= 6) also after a previous call of the same engine on another one-label reference with the same id",
         nontrivial_rule="path on which at least one pair is returned",
         assumptions=["labels of a map are in non-decreasing order (reader sorts them)", "window end >= seed (callers pass seed + query length)",
                      "query length > last query label", "maxDistance >= 0", "exact real arithmetic"],
